@@ -46,7 +46,7 @@ def publicKey (fn : String) (r : Rel) : Res String :=
   match r.key with
   | .ok => .ok r.id
   | .err => .err "PublicKey"
-  | .libPanic => .panic (fn ++ ":PublicKey()(go-did)")
+  | .libPanic => .panic (fn ++ ">did.VerificationMethod.PublicKey:PublicKey()(go-did)")
 
 structure KeyDoc where
   context : List J
@@ -64,7 +64,7 @@ def findKey (c : Cfg) (keyID : String) (base : Option String) : List Rel → Res
       match base with
       | some b =>
         -- `*baseUrl` is dereferenced only under `baseUrl != nil`
-        if r.id.startsWith "#" then
+        if hasPrefix r.id "#" then
           if b ++ r.id == keyID then publicKey "ResolveKeyByID" r
           else findKey c keyID base rest
         else findKey c keyID base rest
@@ -123,7 +123,7 @@ structure Env where
   /-- ValidateServiceReference(uri) == nil -/
   refOk : String → Bool
 
-def isServiceReference (s : String) : Bool := s.startsWith "did:"
+def isServiceReference (s : String) : Bool := hasPrefix s "did:"
 
 def findSvc (t : String) : List Svc → Option Svc
   | [] => none
@@ -165,8 +165,8 @@ def sites : List (String × String) :=
   [ ("assert:baseUrl:val.(string)", "baseUrl:val.(string)"),
     ("field:ResolveKeyByID:rel.ID", "ResolveKeyByID:rel.ID(nil *VerificationMethod)"),
     ("field:ResolveKey:keys[0].PublicKey()", "ResolveKey:keys[0].PublicKey()(nil *VerificationMethod)"),
-    ("call:ResolveKeyByID:rel.PublicKey()", "ResolveKeyByID:PublicKey()(go-did)"),
-    ("call:ResolveKey:keys[0].PublicKey()", "ResolveKey:PublicKey()(go-did)"),
+    ("call:ResolveKeyByID:rel.PublicKey()", "ResolveKeyByID>did.VerificationMethod.PublicKey:PublicKey()(go-did)"),
+    ("call:ResolveKey:key.PublicKey()", "ResolveKey>did.VerificationMethod.PublicKey:PublicKey()(go-did)"),
     ("mapwrite:ResolveEx:documentCache[referencedDID.String()]", "ResolveEx:documentCache[k]=v(nil map)") ]
 
 end Nuts.C19.Resolver
